@@ -526,6 +526,9 @@ class Engine:
                 return self.py_eq(ctx, a.term, b.term)
             return False
         if isinstance(a, Obj) and isinstance(b, Obj):
+            hook = self.eq_spec(a, b)
+            if hook is not None:
+                return hook
             m = a.cls.lookup("__eq__")
             if m is not None:
                 r = self.call_function(ctx, m, [a, b], {})
@@ -562,6 +565,22 @@ class Engine:
         if type(a) is not type(b):
             return False
         raise EngineLimit("== of %r and %r" % (a, b))
+
+    def eq_spec(self, a: Obj, b: Obj):
+        """Interface contract of `==` declared by a class specification (`eq(a, b)` -> clause) for a hierarchy whose
+           abstract base does not define __eq__ while implementations do (dynamic dispatch of == on a non-exact receiver).
+           Applies when either operand is a non-exact object of such a hierarchy; the implementations' __eq__ are
+           obligated to the same clause by their own contracts."""
+        if a.exact and a.cls.lookup("__eq__") is not None:
+            return None  # exact receiver with its own __eq__: the real method is used (contract / inlining)
+        for c in a.cls.mro():
+            cs = self.reg.classes.get(c.qualname)
+            fn = getattr(cs, "eq", None) if cs else None
+            if fn is not None and b.cls.is_subclass_of(c):
+                ctx = speclib.CTX or a.ctx
+                r = self.run_spec(ctx, fn, a, b) if speclib.CTX is None else fn(a, b)
+                return lift_bool(r) if not isinstance(r, bool) else r
+        return None
 
     def class_tag_eq(self, ctx, a, b):
         def tag(v):
@@ -1272,6 +1291,17 @@ class Engine:
             vals = [self.truth(ctx, self.eval(ctx, v, env)) for v in e.values]
             if all(isinstance(v, (bool, z3.BoolRef)) for v in vals):
                 return speclib_and(*vals) if is_and else speclib_or(*vals)
+        if getattr(ctx, "pure_bool", 0):
+            # predicate of a filter over a symbolic sequence: every operand is evaluated (no short-circuit fork); this is
+            # accepted only if no operand takes a decision or raises (then the strict and the lazy reading coincide)
+            n0 = len(ctx.taken)
+            try:
+                vals = [self.truth(ctx, self.eval(ctx, v, env)) for v in e.values]
+            except PyRaise:
+                raise EngineLimit("an operand of and/or inside a symbolic filter predicate may raise")
+            if len(ctx.taken) != n0 or not all(isinstance(v, (bool, z3.BoolRef)) for v in vals):
+                raise EngineLimit("an operand of and/or inside a symbolic filter predicate branches")
+            return speclib_and(*vals) if is_and else speclib_or(*vals)
         last = None
         for i, sub in enumerate(e.values):
             last = self.eval(ctx, sub, env)
@@ -1708,7 +1738,9 @@ class Engine:
             selfv = ns.self
             self.havoc_init_fields(ctx, selfv, finfo.cls)
         else:
-            if contract.returns is not None:
+            if contract.value is not None:
+                result = self.run_spec(ctx, contract.value, ns)
+            elif contract.returns is not None:
                 result = ctx.fresh_kind("ret!" + finfo.name, contract.returns)
                 self.assume_wellformed(ctx, result)
             if contract.modifies and isinstance(nsd.get("self"), Obj) and nsd["self"].fields is not None:
